@@ -20,7 +20,7 @@ pub fn run(ctx: &mut Ctx) -> Result<(), String> {
     match ctx.prop.as_str() {
         "C01" => cluster_props::run_c01(ctx),
         "C02" => cluster_props::run_c02(ctx),
-        "C03" => pool_props::run(ctx, "C03", 480, 40_000),
+        "C03" => pool_props::run(ctx, "C03", 480, 40_000).map(|_| cluster_props::run_c03_nodes(ctx, 16, 480)),
         "C04" => pool_props::run(ctx, "C04", 480, 40_000),
         "C05" => c05::run(ctx),
         "C06" => pool_props::run(ctx, "C06", 480, 40_000),
